@@ -12,6 +12,7 @@ import (
 	"runtime/debug"
 	"sort"
 	"strings"
+	"time"
 
 	"gpv/internal/core"
 	"gpv/internal/props"
@@ -37,6 +38,21 @@ func main() {
 		fmt.Println()
 	case "selftest":
 		os.Exit(props.Selftest(os.Args[2:]))
+	case "roots":
+		p, err := core.Load("/repo", core.InScope)
+		if err != nil {
+			fmt.Println(err)
+			os.Exit(2)
+		}
+		r := p.Roots()
+		k := map[string]int{}
+		for _, d := range r.Dec {
+			k[d.Kind]++
+			if len(os.Args) > 2 {
+				fmt.Println(d.Kind, d.MinLen, core.FnKey(d.Fn))
+			}
+		}
+		fmt.Println("dec roots", len(r.Dec), k, "decReach", len(r.DecReach), "acc", len(r.Acc), "accReach", len(r.AccReach), "ser", len(r.Ser), "serReach", len(r.SerReach), "declayers", len(r.DecLayerTs))
 	case "list":
 		var ids []string
 		for id := range props.Registry {
@@ -80,12 +96,14 @@ func check(args []string) (code int) {
 		}
 	}()
 	pats := core.InScope
+	t0 := time.Now()
 	p, err := core.Load(*repo, pats)
 	if err != nil {
 		fmt.Println("CHECKER-ERROR:", err)
 		return 2
 	}
 	c := core.NewCtx(p, id, *tier)
+	c.Start = t0
 	c.NoWrite = *noWrite
 	c.Quiet = *quiet
 	fn(c)
